@@ -173,6 +173,21 @@ func compare(exp *AV, o Outcome) diffInfo {
 		return diffInfo{symptom: "mismatch", msg: diffClass(exp, got),
 			detail: fmt.Sprintf("expected %s\ngot      %s\n(%T prints as %s)", trunc(exp.Canon(), 700), trunc(got.Canon(), 700), o.V, reprSafe(o.V))}
 	}
+	// equal values are interchangeable (C02): a result with the right members must also be = to the
+	// same value built directly, in both directions (a non-canonical representation fails here)
+	if sh := exp.Shape(); !sh.Superimposed && !sh.ByteGaps {
+		var canon rel.Value
+		if _, _, p := catch(func() { canon = exp.Build() }); !p && canon != nil {
+			var eq1, eq2 bool
+			if _, _, p := catch(func() { eq1, eq2 = o.V.Equal(canon), canon.Equal(o.V) }); !p && !(eq1 && eq2) {
+				if ca, _ := Denote(canon); ca.Equal(exp) {
+					return diffInfo{symptom: "mismatch", msg: "not-equal-to-canonical",
+						detail: fmt.Sprintf("the result has the right members but is not = to the same value built directly (result.Equal(direct)=%v, direct.Equal(result)=%v): result is %T %s, direct is %T %s",
+							eq1, eq2, o.V, reprSafe(o.V), canon, reprSafe(canon))}
+				}
+			}
+		}
+	}
 	if len(anoms) > 0 {
 		return diffInfo{symptom: "anomaly", msg: anoms[0].Kind, detail: fmt.Sprintf("members are right but %s (%T prints as %s)", anoms[0].Msg, o.V, reprSafe(o.V))}
 	}
